@@ -52,6 +52,12 @@ var c18Alphabet = []c18Set{
 	{"table=0,table=4096", []peer.Setting{{ID: 1, Val: 0}, {ID: 1, Val: 4096}}, 0},
 	{"window=100000+frame=32768", []peer.Setting{{ID: 4, Val: 100000}, {ID: 5, Val: 32768}}, 0},
 	{"streams=5+table=200", []peer.Setting{{ID: 3, Val: 5}, {ID: 1, Val: 200}}, 0},
+	// the same parameter twice in one frame: values are processed in order, an invalid one is an error whatever follows
+	{"frame=2^24,frame=16384", []peer.Setting{{ID: 5, Val: 1 << 24}, {ID: 5, Val: 16384}}, cPROTOCOL},
+	{"frame=16383,frame=16384", []peer.Setting{{ID: 5, Val: 16383}, {ID: 5, Val: 16384}}, cPROTOCOL},
+	{"window=2^31,window=65535", []peer.Setting{{ID: 4, Val: 1 << 31}, {ID: 4, Val: 65535}}, cFLOW},
+	{"push=2,push=0", []peer.Setting{{ID: 2, Val: 2}, {ID: 2, Val: 0}}, cPROTOCOL},
+	{"frame=20000,frame=2^24", []peer.Setting{{ID: 5, Val: 20000}, {ID: 5, Val: 1 << 24}}, cPROTOCOL},
 	{"all six", []peer.Setting{{ID: 1, Val: 300}, {ID: 2, Val: 0}, {ID: 3, Val: 7}, {ID: 4, Val: 80000}, {ID: 5, Val: 17000}, {ID: 6, Val: 100000}}, 0},
 }
 
